@@ -12,7 +12,7 @@ def race(make, code_name, park_at):
     """run make() in two threads; A parks the park_at-th time a line of function `code_name` is traced"""
     results, state = {}, {"count": 0, "parked": threading.Event(), "resume": threading.Event(), "done": False}
     def tracer(frame, event, arg):
-        if frame.f_code.co_name != code_name:
+        if frame.f_code.co_name not in code_name or "measured" not in frame.f_code.co_filename:
             return tracer if event == "call" else None
         def local(frame, event, arg):
             if event == "line" and not state["done"]:
@@ -43,24 +43,26 @@ def c20_check(kind, n, park_at, ns):
         exps = tuple([0, n, -n, 7] + [0] * (len(measured.Number.exponents) - 4))
         make = lambda: measured.Dimension(exps)
         table, count = measured.Dimension._known, lambda: sum(1 for d in measured.Dimension._known.values() if d.exponents == exps)
-        name = "__new__"
+        name = ("__new__", "__init__")
     elif kind == "prefix":
         make = lambda: measured.Prefix(7, n)
         count = lambda: sum(1 for p in measured.Prefix._known.values() if p._initialized and (p.base, p.exponent) == (7, n))
-        name = "__new__"
+        name = ("__new__", "__init__")
     elif kind == "unit":
         u, v = ns["Meter"], ns["Second"]
         make = lambda: measured.Unit(measured.IdentityPrefix, {u: n, v: -n}, u.dimension ** n / v.dimension ** n)
         count = lambda: sum(1 for x in measured.Unit._known.values() if dict(x.factors) == {u: n, v: -n} and x.prefix is measured.IdentityPrefix)
-        name = "__new__"
+        name = ("__new__", "__init__")
     else:
         u, v = ns["Meter"], ns["Second"]
         a_, b_ = u ** n, v ** (n + 1)
         make = lambda: a_ * b_
         count = lambda: sum(1 for x in measured.Unit._known.values() if dict(x.factors) == {u: n, v: n + 1} and x.prefix is measured.IdentityPrefix)
-        name = "__new__"
+        name = ("__new__", "__init__")
     A, B, reached = race(make, name, park_at)
     bad = []
+    if not reached:
+        return bad, reached  # the constructor has fewer traced lines than this park point
     if A is None or B is None: bad.append("hang: a thread did not finish")
     elif A is not B: bad.append("identity: the two threads obtained different objects for the same %s" % kind)
     if count() != 1: bad.append("registry: %d entries for one %s" % (count(), kind))
@@ -77,7 +79,7 @@ def run(tier, seed):
     failures, samples, evals, distinct = [], [], 0, set()
     base = 1000 + (seed % 97) * 40
     kinds = ["dimension", "prefix", "unit", "multiply"]
-    lines = range(1, 9) if tier == "quick" else range(1, 14)
+    lines = range(1, 15) if tier == "quick" else range(1, 26)
     i = 0
     for kind in kinds:
         for park in lines:
